@@ -12,7 +12,7 @@ from . import prim as P
 
 LEVEL = "exploration"
 RULE = {
-    "C06": "(a) every catalogue configuration (real and complex): NumPy's value vs autograd.numpy on plain inputs vs the primal returned by make_vjp / make_jvp / value_and_grad at nesting depth 1 and 2; (b) re-implemented wrappers (array, concatenate, stack, vstack, hstack, column_stack, append, select, r_, c_, make_diagonal, reshape/astype methods) over argument forms (scalars, 0-d, nested lists, int/float mixes, ragged ranks, axis None/negative, ndmin, r_ directives); (c) random programs traced at depth 1-3 vs plain; (d) isinstance/type replacements on every tracer kind; (e) functions wrapped with autograd.misc.tracers.const_graph (keyworded / positional / method / multi-argument calls, arguments bound at wrap time): the recording call (plain or under either mode) and every replay, plain and under make_vjp / make_jvp / value_and_grad / depth 2, vs NumPy; shape queries (shape / ndim / size / len / itemsize) of single-precision, 0-d and empty traced data answer with Python ints exactly like NumPy (a NumPy integer would change the dtype of what is computed from it). Comparison: structure, dtype, shape, values (NaN==NaN). Non-trivial iff NumPy returned a value and at least one traced evaluation returned. distinct = distinct signatures (function, form, arg classes, kwarg classes, depth).",
+    "C06": "(a) every catalogue configuration (real and complex): NumPy's value vs autograd.numpy on plain inputs vs the primal returned by make_vjp / make_jvp / value_and_grad at nesting depth 1 and 2; (b) re-implemented wrappers (array, concatenate, stack, vstack, hstack, column_stack, append, select, r_, c_, make_diagonal, reshape/astype methods) over argument forms (scalars, 0-d, nested lists, int/float mixes, ragged ranks, axis None/negative, ndmin, r_ directives); (c) random programs traced at depth 1-3 vs plain; (d) isinstance/type replacements on every tracer kind; (e) functions wrapped with autograd.misc.tracers.const_graph (keyworded / positional / method / multi-argument calls, arguments bound at wrap time): the recording call (plain or under either mode) and every replay, plain and under make_vjp / make_jvp / value_and_grad / depth 2, vs NumPy; shape queries (shape / ndim / size / len / itemsize) of single-precision, 0-d and empty traced data answer with Python ints exactly like NumPy (a NumPy integer would change the dtype of what is computed from it); (f) output buffers (keyword / positional) of linear primitives under forward mode at depth 1-3: value, buffer content and tangent; the bundled optimizers leave their start point (ndarray, Fortran-ordered matrix, list / dict / tuple trees) unchanged and unaliased. Comparison: structure, dtype, shape, values (NaN==NaN). Non-trivial iff NumPy returned a value and at least one traced evaluation returned. distinct = distinct signatures (function, form, arg classes, kwarg classes, depth).",
     "C14": "(a) programs whose float output is independent of the differentiated argument (constant, other argument, only through non-differentiable functions) x argument types (scalar, array, tuple/list/dict) x every differential operator, result must be an exact zero with the argument's (forward: output's) structure - also in a process that promotes every warning category except UserWarning to an error; (b) every member of the live nograd_functions list called on reverse- and forward-mode tracers at depth 1-2: untraced result equal to NumPy's, locally constant on NumPy; (c) x*q(x) compositions differentiate to q(x) exactly; (d) Python control flow on tracers takes the plain branch; (e) user primitives declared non-differentiable through register_notrace before their first call or after plain / reverse / forward / nested use: plain values back, x*q(x) differentiates to q(x). Non-trivial iff the operator returned and was compared. distinct = distinct (family, operator, argument type, function) signatures.",
 }
 ASSUMPTIONS = {
